@@ -76,6 +76,9 @@ def detect(name, tier, checks):
     finally:
         rc, out = sh(f'git -C {REPO} checkout -- . && git -C {REPO} status --short')
         assert out.strip() == '', out
+        # a run against a patched tree rewrites evidence/<id>.json with the violation it found: put the committed file back, evidence
+        # must only ever come from runs on the unchanged tree
+        sh('git checkout -- ' + ' '.join(f'evidence/{c}.json' for c in checks), cwd=VERIF)
     meta['detection'].setdefault(tier, {}).update(results)
     json.dump(meta, open(os.path.join(d, 'meta.json'), 'w'), indent=1)
     print(name, tier, json.dumps({c: (r['detected'], r['exit'], r['violation_lines'][:1]) for c, r in results.items()}))
